@@ -4,7 +4,10 @@ import (
 	"bytes"
 	"context"
 	"encoding/json"
+	"errors"
 	"fmt"
+	uf "github.com/cloudwego/gopkg/protocol/thrift/unknownfields"
+	"github.com/cloudwego/gopkg/unsafex"
 	"math/rand"
 	"os"
 	"os/exec"
@@ -101,7 +104,7 @@ func stressWorker(g int, cycles int, seed int64, lg *lockedLog, shared *strmap.S
 	for c := 0; c < cycles; c++ {
 		ok := true
 		data, lens := encodeVals(g, c, rng)
-		switch rng.Intn(8) {
+		switch rng.Intn(10) {
 		case 0: // BufferReader over a bytes reader / stream reader
 			var rd bufiox.Reader
 			if rng.Intn(2) == 0 {
@@ -201,6 +204,69 @@ func stressWorker(g int, cycles int, seed int64, lg *lockedLog, shared *strmap.S
 			buf := thrift.FastMarshal(b)
 			nb := base.NewBase()
 			if err := thrift.FastUnmarshal(buf, nb); err != nil || nb.LogID != b.LogID || nb.Caller != b.Caller || nb.Addr != b.Addr || nb.Extra["g"] != fmt.Sprint(g) {
+				ok = false
+			}
+		case 7: // value-only helpers on the goroutine's own values: nothing here may share state with another goroutine
+			tid := int32(1000 + g*131 + c%7) // an id outside the table of default messages, message empty
+			ae := thrift.NewApplicationException(tid, "")
+			want := fmt.Sprintf("unknown exception type [%d]", tid)
+			pe := thrift.NewProtocolException(tid, "")
+			te := thrift.NewTransportException(tid, "")
+			if ae.Error() != want || pe.Error() != want || te.Error() != want {
+				ok = false
+			}
+			if pp := thrift.PrependError(fmt.Sprint("g", g, ": "), ae); pp.Error() != fmt.Sprint("g", g, ": ")+want {
+				ok = false
+			}
+			cause := fmt.Errorf("cause of g%d c%d", g, c)
+			wp := thrift.NewProtocolExceptionWithErr(cause)
+			if !errors.Is(wp, cause) || errors.Is(wp, errInjected) || wp.Error() != cause.Error() {
+				ok = false
+			}
+			msg, err := thrift.MarshalFastMsg(fmt.Sprint("m", g), thrift.EXCEPTION, int32(c), thrift.NewApplicationException(tid, fmt.Sprint("boom", g)))
+			if err != nil {
+				ok = false
+				break
+			}
+			_, _, uerr := thrift.UnmarshalFastMsg(msg, base.NewBase())
+			var ux *thrift.ApplicationException
+			if !errors.As(uerr, &ux) || ux.TypeID() != tid || ux.Msg() != fmt.Sprint("boom", g) {
+				ok = false
+			}
+			src := PatBytes(g, c, 300)
+			if str := unsafex.BinaryToString(src); len(str) != 300 || unsafex.StringToBinary(str)[17] != src[17] {
+				ok = false
+			}
+		case 8: // a private string map and unknown-field tree per goroutine
+			ks := []string{fmt.Sprint("a", g), fmt.Sprint("b", c), "", fmt.Sprint("long-", g, "-", c)}
+			m := strmap.New[int]()
+			if err := m.LoadFromSlice(ks, []int{1, 2, 3, 4}); err != nil {
+				ok = false
+				break
+			}
+			for i, k := range ks {
+				if v, found := m.Get(k); !found || v != i+1 {
+					ok = false
+				}
+			}
+			if _, found := m.Get(fmt.Sprint("zz", g)); found {
+				ok = false
+			}
+			s2 := strmap.NewStr2Str()
+			if err := s2.LoadFromSlice(ks, []string{"1", "", fmt.Sprint(g), fmt.Sprint(c)}); err != nil {
+				ok = false
+				break
+			}
+			if v, found := s2.Get(fmt.Sprint("a", g)); !found || v != "1" {
+				ok = false
+			}
+			fs, err := uf.ConvertUnknownFields(data[:0:0])
+			_ = fs
+			_ = err
+			enc := thrift.Binary.AppendFieldBegin(nil, thrift.STRING, int16(g))
+			enc = thrift.Binary.AppendString(enc, fmt.Sprint("v", g, c))
+			tr, err := uf.ConvertUnknownFields(enc)
+			if err != nil || len(tr) != 1 || tr[0].ID != int16(g) || tr[0].Value.(string) != fmt.Sprint("v", g, c) {
 				ok = false
 			}
 		default: // concurrent Get on the shared map
@@ -352,6 +418,11 @@ func raceRuns(c *Ctx, seeds int) {
 			c.GoViolation("race-C14", "conc/data-race", cs, "race detector: "+firstLines(txt, 14))
 			break
 		}
+		if strings.Contains(txt, "fatal error: concurrent map") { // the runtime's own detector, not recoverable in-process
+			races++
+			c.GoViolation("race-C14", "conc/concurrent-map-access", cs, "runtime: "+firstLines(txt[strings.Index(txt, "fatal error: concurrent map"):], 8))
+			break
+		}
 		if strings.Contains(txt, "SELFCHECK-FAIL") {
 			c.GoViolation("race-C14", "conc/selfcheck-under-race-build", cs, firstLines(txt, 6))
 			break
@@ -378,7 +449,7 @@ func replayRace(c *Ctx, raw json.RawMessage) {
 }
 
 func checkC14(c *Ctx) {
-	c.rule = "MC: 3 goroutines x 2 pooled objects x span requests, every interleaving of Acquire / Release / CAS-lock / bump / slice-unlock (9 steps): exclusive ownership, reset on recycle, disjoint span regions, exclusive lock; TLC finds the violation when fields are not cleared before Put. APALACHE: the conjunction of these invariants plus a strengthening (Ind_Concurrency.tla) is inductive for every span size, request size and run length (base case, inductive step, negative control, non-vacuity probes). TLAPS: Proof_Concurrency.tla proves Spec => []IndInv for arbitrary sets of goroutines and objects (29 obligations; a negative control must fail). TRACE: stress runs (8..24 goroutines, create/use/release cycles of BufferReader, BufferWriter, SkipDecoder, BytesSkipDecoder, ReaderSkipDecoder, ttheader and Base codecs with the span allocator on, concurrent Get on a shared map) with per-goroutine self-checking payloads over the poisoning pool double; the acquisition/release log (after Get / before Put, one mutex) must be enabled Acquire/Release actions and every self-check ok. RACE: the same driver built with -race against the real mcache, several seeds; any report is a violation."
+	c.rule = "MC: 3 goroutines x 2 pooled objects x span requests, every interleaving of Acquire / Release / CAS-lock / bump / slice-unlock (9 steps): exclusive ownership, reset on recycle, disjoint span regions, exclusive lock; TLC finds the violation when fields are not cleared before Put. APALACHE: the conjunction of these invariants plus a strengthening (Ind_Concurrency.tla) is inductive for every span size, request size and run length (base case, inductive step, negative control, non-vacuity probes). TLAPS: Proof_Concurrency.tla proves Spec => []IndInv for arbitrary sets of goroutines and objects (29 obligations; a negative control must fail). TRACE: stress runs (8..24 goroutines, create/use/release cycles of BufferReader, BufferWriter, SkipDecoder, BytesSkipDecoder, ReaderSkipDecoder, ttheader and Base codecs with the span allocator on, concurrent Get on a shared map, and the value-only helpers - exceptions with ids outside the default-message table, PrependError / errors.Is / message envelopes, unsafex, private string maps and unknown-field trees) with per-goroutine self-checking payloads over the poisoning pool double; the acquisition/release log (after Get / before Put, one mutex) must be enabled Acquire/Release actions and every self-check ok. RACE: the same driver built with -race against the real mcache, several seeds; any report is a violation."
 	c.MC("MC_Concurrency.tla", "MC_Concurrency.cfg", 8)
 	// unbounded safety (Apalache): IndInv of Ind_Concurrency.tla is inductive for every span size >= 1, every request
 	// size and runs of any length (3 goroutines, 3 objects); the same step fails when fields are not cleared before
@@ -400,8 +471,12 @@ func checkC14(c *Ctx) {
 	for s := 0; s < c.Pick(6, 40); s++ {
 		cases = append(cases, mustJSON(ConcCase{G: 8 + (s%3)*8, Cycles: c.Pick(200, 600), Seed: c.Seed*100 + int64(s)}))
 	}
-	c.TraceCheck(famConc, cases)
+	// the race-detector children run first: a race that makes the runtime abort ("concurrent map writes") would take an
+	// in-process stress run down with it; once a child has reported, the in-process run is skipped
 	raceRuns(c, c.Pick(4, 20))
+	if len(c.violations) == 0 {
+		c.TraceCheck(famConc, cases)
+	}
 	c.Assume("TLA+ decides ownership/isolation on the logged acquisitions; the Go memory model clause (no data race) is decided by the race detector on the executions of the spec-driven stress driver")
 	c.Assume("the log order (acquire logged after Get, release logged before Put, one mutex) is conservative: a correct implementation is never rejected")
 }
